@@ -12,7 +12,14 @@ import (
 // JSON object with a "kind" field naming the stream's case type (and, in KNOWN_FINDINGS.json, a
 // "witness" object of that shape).
 
-const verifRoot = "/verif"
+// verifRoot: where KNOWN_FINDINGS.json and corpus/ live: the directory of the ./check that started
+// this harness (VERIF_ROOT; a snapshot run reads its own snapshot), /verif by default
+var verifRoot = func() string {
+	if r := os.Getenv("VERIF_ROOT"); r != "" {
+		return r
+	}
+	return "/verif"
+}()
 
 func remarshal(in any, out any) error {
 	b, err := json.Marshal(in)
